@@ -5,19 +5,26 @@
 #define ID_IS_W (qdom_attribute(stanza, S("id")) == g_wid)
 #define IS_IQ (TAG == S("iq"))
 #define IS_RESPONSE (TYPE == S("result") || TYPE == S("error"))
-/* the witness request as the table sees it, and "nothing about it changed" */
+/* the entry stored under the witness id as the table sees it; the witness REQUEST (g_wid, g_wgen) is in the table iff that entry
+   exists and is of the witness generation; "nothing about it changed" */
 #define W_PRESENT (self->m_requests.w_present)
 #define W_JID (self->m_requests.w.second.jid)
+#define W_GEN (self->m_requests.w.second.interface.gh_gen)
+#define W_IN (W_PRESENT && W_GEN == g_wgen)
+#define OLD_W_IN (__CPROVER_old(self->m_requests.w_present) && __CPROVER_old(self->m_requests.w.second.interface.gh_gen) == g_wgen)
 #define W_UNCHANGED (self->m_requests.w_present == __CPROVER_old(self->m_requests.w_present) && self->m_requests.w.second.jid == __CPROVER_old(self->m_requests.w.second.jid) \
-   && gh_completions == __CPROVER_old(gh_completions) && gh_started == __CPROVER_old(gh_started) && VALUE_UNCHANGED)
+   && self->m_requests.w.second.interface.gh_gen == __CPROVER_old(self->m_requests.w.second.interface.gh_gen) \
+   && gh_completions == __CPROVER_old(gh_completions) && gh_gen_ctr == __CPROVER_old(gh_gen_ctr) && VALUE_UNCHANGED)
 /* the value the witness request was completed with is not overwritten */
 #define VALUE_UNCHANGED (gh_value.kind == __CPROVER_old(gh_value.kind) && gh_value.el == __CPROVER_old(gh_value.el) && gh_value.err.description == __CPROVER_old(gh_value.err.description) \
    && gh_value.err.error.kind == __CPROVER_old(gh_value.err.error.kind) && gh_value.err.error.val == __CPROVER_old(gh_value.err.error.val))
 #define VALUE_AS_AT_LOOP_ENTRY (gh_value.kind == __CPROVER_loop_entry(gh_value.kind) && gh_value.el == __CPROVER_loop_entry(gh_value.el) && gh_value.err.description == __CPROVER_loop_entry(gh_value.err.description) \
    && gh_value.err.error.kind == __CPROVER_loop_entry(gh_value.err.error.kind) && gh_value.err.error.val == __CPROVER_loop_entry(gh_value.err.error.val))
-#define GHOST_RANGES (0 <= gh_completions && gh_completions < 1000 && 0 <= gh_others_completed && gh_others_completed <= 1000)
+#define GHOST_RANGES (0 <= gh_completions && gh_completions < 1000 && 0 <= gh_others_completed && gh_others_completed <= 1000 && 0 <= gh_gen_ctr && gh_gen_ctr < 1000)
 #define DISCONNECTED_ERROR(v) ((v).kind == IQ_ERROR && (v).err.error.kind == ANY_SENDERROR && (v).err.error.val == QXmpp_SendError__Disconnected)
 #define SAME_RESULT(a, b) ((a).kind == (b).kind && (a).el == (b).el && (a).err.description == (b).err.description && (a).err.error.kind == (b).err.error.kind && (a).err.error.val == (b).err.error.val)
-/* the exactly-once invariant for the witness id (see lemma.h) */
-#define INV(self) (0 <= gh_completions && gh_completions <= 1 && (((self)->m_requests.w_present ? 1 : 0) == ((gh_started && gh_completions == 0) ? 1 : 0)) \
-   && (gh_started || gh_completions == 0) && (!(self)->m_requests.w_present || (g_wid != 0 && (self)->m_requests.w.second.jid != 0)))
+/* the exactly-once invariant for the witness request (see lemma.h) */
+#define M_IN(m) ((m).w_present && (m).w.second.interface.gh_gen == g_wgen)
+#define INV(self) (0 <= gh_completions && gh_completions <= 1 && 0 <= gh_gen_ctr \
+   && ((M_IN((self)->m_requests) ? 1 : 0) == ((STARTED && gh_completions == 0) ? 1 : 0)) && (STARTED || gh_completions == 0) \
+   && (!(self)->m_requests.w_present || (g_wid != 0 && (self)->m_requests.w.second.jid != 0 && 1 <= (self)->m_requests.w.second.interface.gh_gen && (self)->m_requests.w.second.interface.gh_gen <= gh_gen_ctr)))
